@@ -108,6 +108,14 @@ def generate(seed, tier):
                                 if op[0] != "group"],
                        "end": ["commit", {"merge": wrng.choice(merges)}]}
                       for _ in range(mrng.randint(1, 3))]
+        # the caller may pause between calls (the lock can change hands in the middle of a transaction)
+        for tx in rec["txs"]:
+            body = []
+            for op in tx["body"]:
+                if wrng.random() < 0.3:
+                    body.append(["sleep", wrng.choice((0.05, 0.3, 1.0, 3.0))])
+                body.append(op)
+            tx["body"] = body
         rec["fe_args"] = {"delay": mrng.choice((0.05, 0.25)), "hold": mrng.choice((0.01, 0.3, 1.0)),
                           "blocker_docs": [dg.doc(key=100 + i) for i in range(2)]}
     return rec
@@ -238,6 +246,9 @@ class AsyncFront(object):
                             w.update_document(**op[1])
                         elif op[0] == "del_term":
                             w.delete_by_term(op[1], op[2])
+                        elif op[0] == "sleep":
+                            k.sleep(op[1])
+                            continue
                         else:
                             continue
                     except (SimAbort, SimKilled, HarnessError):
